@@ -20,8 +20,8 @@ ran = []
 rc_lib, o = sh('cargo test --offline --lib 2>&1 | grep "test result"', W); ran.append(('with change: cargo test --offline --lib', o.strip()))
 rc_doc, o2 = sh('cargo test --offline --doc 2>&1 | grep "test result"', W); ran.append(('with change: cargo test --offline --doc', o2.strip()))
 suite_ok = 'FAILED' not in o and 'FAILED' not in o2 and ' 0 failed' in o
-rc_demo_with, o = sh('cargo test --offline --test demo 2>&1 | grep -E "test result" | head -3', W); ran.append(('with change: cargo test --offline --test demo', o.strip()))
-demo_fails_with = 'FAILED' in o or 'failed' in o and ' 0 failed' not in o
+rc_demo_with, o = sh('cargo test --offline --test demo 2>&1 | grep -E "test result|SIGABRT|SIGSEGV|overflowed its stack|process didn.t exit successfully" | head -4', W); ran.append(('with change: cargo test --offline --test demo', o.strip()))
+demo_fails_with = 'FAILED' in o or ('failed' in o and ' 0 failed' not in o) or 'SIGABRT' in o or 'SIGSEGV' in o or 'overflowed its stack' in o
 sh('git diff -- src > /tmp/seed/%s.mine.diff && git apply -R /tmp/seed/%s.mine.diff' % (name, name), W)
 rc_demo_without, o = sh('cargo test --offline --test demo 2>&1 | grep -E "test result" | head -3', W); ran.append(('without change: cargo test --offline --test demo', o.strip()))
 demo_passes_without = ' 0 failed' in o and 'FAILED' not in o
